@@ -83,11 +83,11 @@ def neighborsCan (X : Input α) (k : Nat) : List Nat :=
 /-- `new[k]` -/
 def newCan (X : Input α) (k : Nat) : List Nat := (List.range (X.H.ia k).length).map (· + X.off k)
 
-/-- the three blocks of level `k` with their (row, column) matrix index lists -/
-def levelBlocks (X : Input α) (k : Nat) : List (Mat α × List Nat × List Nat) :=
+/-- the three blocks of level `k` with their (row, column) matrix index lists, for a given tabulated
+representation matrix `I` (= `I_hb_k`) -/
+def levelBlocksWith (X : Input α) (k : Nat) (I : Mat α) : List (Mat α × List Nat × List Nat) :=
   let ta := X.toAssemble k
   let Ak := ((X.Ak k).keepRows ta).freeze                 -- `_assemble_level(k, rows=to_assemble[k], …)`
-  let I := (X.H.representFine k false (some ta) false).freeze
   let ilx := X.interlevelIx k
   let newLoc := X.H.ia k
   let nb := X.neighborsCan k
@@ -100,6 +100,10 @@ def levelBlocks (X : Input α) (k : Nat) : List (Mat α × List Nat × List Nat)
             else ((Inew.transpose.mul ((Ak.selRows newLoc).selCols ilx).freeze).freeze.mul Inb).freeze
   [(D, nw, nw), (E, nb, nw), (E2, nw, nb)]
 
+/-- the three blocks of level `k`: `I_hb_k = hs.represent_fine(lv=k, truncate=False, rows=to_assemble[k])` -/
+def levelBlocks (X : Input α) (k : Nat) : List (Mat α × List Nat × List Nat) :=
+  X.levelBlocksWith k (X.H.representFine k false (some (X.toAssemble k)) false).freeze
+
 /-- value contributed at `(i,j)` by the COO triples `(rows[a], cols[b], B[a,b])` after duplicate summation -/
 def scatterGet (B : Mat α) (rows cols : List Nat) (i j : Nat) : α :=
   sumRange B.m fun a => sumRange B.n fun b =>
@@ -110,13 +114,22 @@ def hbEntry (X : Input α) (i j : Nat) : α :=
   sumRange X.H.numlevels fun k =>
     ((X.levelBlocks k).map fun (B, r, c) => scatterGet B r c i j).foldl (· + ·) 0
 
-/-- the COO triples themselves (what the driver prints) -/
+/-- the COO triples of a list of blocks -/
+def triplesOf (blocks : List (Mat α × List Nat × List Nat)) : List (Nat × Nat × α) :=
+  blocks.flatMap fun (B, r, c) =>
+    (List.range B.m).flatMap fun a => (List.range B.n).filterMap fun b =>
+      let v := B.f a b
+      if v = 0 then none else some (r.getD a 0, c.getD b 0, v)
+
+/-- the COO triples themselves (what the driver sums) -/
 def cooTriples (X : Input α) : List (Nat × Nat × α) :=
-  (List.range X.H.numlevels).flatMap fun k =>
-    (X.levelBlocks k).flatMap fun (B, r, c) =>
-      (List.range B.m).flatMap fun a => (List.range B.n).filterMap fun b =>
-        let v := B.f a b
-        if v = 0 then none else some (r.getD a 0, c.getD b 0, v)
+  (List.range X.H.numlevels).flatMap fun k => triplesOf (X.levelBlocks k)
+
+/-- the same with the per-level representation matrices supplied (execution device of the driver:
+`Is k` is a tabulation of `represent_fine(lv=k, rows=to_assemble[k])` obtained by a sparse product and
+cross-checked against `representFine` entry by entry on moderate sizes) -/
+def cooTriplesWith (X : Input α) (Is : Nat → Mat α) : List (Nat × Nat × α) :=
+  (List.range X.H.numlevels).flatMap fun k => triplesOf (X.levelBlocksWith k (Is k))
 
 /-- the assembled HB matrix as a `Mat` (specification form; the driver sums `cooTriples` instead) -/
 def assembleHB (X : Input α) : Mat α := ⟨X.H.numdofs, X.H.numdofs, X.hbEntry⟩
